@@ -309,7 +309,8 @@ RULE = ("each request (plain QUERY, RD random, with or without an OPT advertisin
 CHECK = {
     "property": "C04",
     "props": "Props/C04.v",
-    "theorems": ["c04_oracle_tc_shape"],
+    "theorems": ["c04_response_within_limit", "c04_tc_shape", "c04_server_limit_steps_partial", "c04_oracle_tc_shape",
+                 "c04_oracle_sizes_and_identity"],
     "allowed_axioms": [],
     "suites": [{
         "name": "pair", "impl_bin": "impl_c04", "extract": "Extract/ExC04.v", "driver": "run_c04.ml",
@@ -318,7 +319,34 @@ CHECK = {
         "exhaustive": {"quick": False, "thorough": False}, "rule": RULE, "n_samples": 3,
         "timeout": {"quick": 400, "thorough": 3000},
     }],
-    "trusted_base": [],
-    "assumptions": [],
+    "trusted_base": [
+        "Coq 8.16.1 kernel (vm_compute only in the Example); axioms: none",
+        "octet-level model = Model/Query.v (C05) instantiated with Model/MsgWriter.v (C12) by Model/QueryW.v; hand-written, tied to the "
+        "code by comparing BOTH responses of the real server OCTET FOR OCTET with the model's on every case",
+        "the request side (is this a clean QUERY for a Loaded zone, which EDNS size, which negotiated limit) is Model/Server.v "
+        "(C01/C03/C07/C08/C09); its composition with the Writer side is executed by the runner, not a theorem",
+        "oracle: Spec/RespS.v pair_check over the RFC 1035 decoder of Spec/MsgWriterS.v, extracted (ExtrOcamlBasic only), run on the "
+        "implementation's responses; the requestor's payload size is taken from the generator's case line",
+        "harness/src/bin/impl_c04.rs, ocaml/run_c04.ml (the model uses a 4096-octet buffer when the uncompressed response is below 4000 "
+        "octets, 65535 otherwise; a wrong choice would show as an octet difference), checks/c04.py generators",
+    ],
+    "assumptions": ["requests of this suite are plain QUERYs with one question and at most one OPT (version 0, no TSIG); "
+                    "response buffer of 65535 octets as the I/O providers pass"],
 }
-MANIFEST = {}
+
+MANIFEST = {
+    "level_text": ("Coq theorems (no axioms) about the octet-level model of query answering (the C05 query model driving the C12 Writer "
+                   "model, prepared as handle_message prepares a clean QUERY): for every zone, question, buffer and size the finished "
+                   "response is no longer than the limit in effect (TCP 65535; UDP 512, or the negotiated limit with an OPT); the limit "
+                   "never changes while answering; TC is set only in the Truncation arm, only over UDP, after clear_rrs (no answer / "
+                   "authority records, only the reserved OPT/TSIG counted), and never over TCP. PARTIAL: the clauses 'UDP response "
+                   "identical to the TCP response whenever that fits' and 'otherwise only optional additional records are missing, "
+                   "never in-bailiwick glue' are NOT theorems (they need a limit-monotonicity theorem of the Writer): they are decided "
+                   "on every run by the extracted relation pair_check on the real server's two responses to ~2.4k requests tuned to "
+                   "within +-40 octets of 512 and of random negotiated sizes, and both responses are compared octet for octet with "
+                   "the model; the server-side value of the negotiated limit is proved only for the two steps that set it."),
+    "level_note": ("Trusted: Coq kernel, extraction, fidelity of the hand-written models (octet-exact differential test on every run), "
+                   "C12's Writer invariants (reused), the decoder used by the oracle. Known finding C04-1 (see known_findings.jsonl)."),
+    "technique": "machine-checked proof in Coq (invariant lifted through the query model over the Writer model) + octet-exact correspondence on both transports + extracted pair-relation oracle",
+    "design_ref": "DESIGN.md section 4 (C04)",
+}
